@@ -32,7 +32,13 @@ pub fn kinds() -> [InformationContentKind; 3] {
 
 /// The documented formulas evaluated in f64 on model quantities.
 pub fn reference(m: &Model, algo: usize, kind: usize, a: u32, b: u32) -> f64 {
-    let ic = |t: u32| m.ic(kind, t);
+    reference_with(m, algo, kind, a, b, &|t| m.ic(kind, t))
+}
+
+/// The formulas on information contents supplied by the caller. With tens of thousands of records a
+/// content of about 1/N keeps only three or four significant digits in f32 (that precision is C03's
+/// tolerance question); the formulas are then evaluated on the values the terms report.
+pub fn reference_with(m: &Model, algo: usize, kind: usize, a: u32, b: u32, ic: &dyn Fn(u32) -> f64) -> f64 {
     let common_self: BTreeSet<u32> = m.anc_self(a).intersection(&m.anc_self(b)).copied().collect();
     let resnik = common_self.iter().map(|t| ic(*t)).fold(0.0f64, f64::max);
     let lin = {
@@ -129,6 +135,7 @@ pub fn check(f: &Facts, stats: &mut Stats) -> CheckResult {
     // one of the three smallest / largest ids (the library's distance search is quadratic in the depth)
     let big = m.len() > 150;
     let n_ids = m.len();
+    let observed_ic = (0..3).any(|k| m.direct[k].len() > 1000);
     for (ia, a) in m.ids.iter().enumerate() {
         let ta = ont.hpo(*a).unwrap();
         for (ib, b) in m.ids.iter().enumerate() {
@@ -162,7 +169,11 @@ pub fn check(f: &Facts, stats: &mut Stats) -> CheckResult {
                 }
                 for algo in 0..8 {
                     stats.eval(1);
-                    let want = reference(&m, algo, k, *a, *b);
+                    let want = if observed_ic {
+                        reference_with(&m, algo, k, *a, *b, &|t| ont.hpo(t).map_or(0.0, |x| f64::from(x.information_content().get_kind(&ks[k]))))
+                    } else {
+                        reference(&m, algo, k, *a, *b)
+                    };
                     let r = guarded(|| {
                         let via_enum = builtin(algo, ks[k]).calculate(&ta, &tb);
                         let via_struct = concrete(algo, ks[k], &ta, &tb);
